@@ -11,8 +11,9 @@ FilterSyntaxError = C.FilterSyntaxError
 
 # RFC 4512 attributedescription / oid, written independently of the library's pattern
 NUMBER = r"(?:0|[1-9][0-9]*)"
-RFC_OID = rf"(?:[A-Za-z][A-Za-z0-9-]*|{NUMBER}(?:\.{NUMBER})+)"
-RFC_ATTR = re.compile(rf"{RFC_OID}(?:;[A-Za-z0-9-]+)*\Z")
+_RFC_OID = rf"(?:[A-Za-z][A-Za-z0-9-]*|{NUMBER}(?:\.{NUMBER})+)"
+RFC_OID = re.compile(rf"{_RFC_OID}\Z")
+RFC_ATTR = re.compile(rf"{_RFC_OID}(?:;[A-Za-z0-9-]+)*\Z")
 SINGLE_ARC = re.compile(rf"{NUMBER}(?:;[A-Za-z0-9-]+)*\Z")
 
 LEAD = "abcxyzABCXYZ"
@@ -83,7 +84,7 @@ def g_tree(rng, depth=4):
                 return {"k": "substr", "a": a, "i": i, "any": anys, "f": f}
     # ext: a rule or an attribute; rule is not the word dn
     while True:
-        rule = C.tx(g_attr(rng)) if rng.random() < 0.6 else None
+        rule = C.tx(g_oid(rng)) if rng.random() < 0.6 else None      # RFC 4515: matchingrule = oid (no options)
         attr = a if rng.random() < 0.6 else None
         if rule is None and attr is None:
             continue
@@ -211,28 +212,90 @@ FIXED_TEXTS = [
     "(cn:dn:=*)", "(cn:caseExactMatch:=*)", "(cn:dn:2.5.13.5:=*)", "(:caseExactMatch:=*)", ":dn:2.5.13.5:=*", "(cn:=*)", "(cn>=*)", "(cn<=*)", "(cn~=*)",
     "(&(a=b)(!(cn;lang-en:DN:caseIgnoreMatch:=*)))", "(1bad x:=*)", "(cn:dn:=**)", "(cn:dn:=\\2a)", "(cn:dn:=* )",
     "(a>~=b)", "(a~>=b)", "(a<=b=c)", "(a=b~=c)", "(0=x)", "(0;o=x)",
+    # matching rules: RFC 4515 `matchingrule = oid` has no options; an extensible match needs an attribute or a rule
+    "(cn:2.5;x:=v)", "(:caseExactMatch;lang-en:=v)", "(cn:dn:2.5.13.5;binary:=v)", "(:dn:rule;option1-;option2:=value)", "(:dn:=x)", "(:1:=v)", "(cn:1:=v)",
 ]
+
+
+# ---- an independent recogniser of RFC 4515 filter strings (strict: no spaces), used to judge the library's own text forms
+_NUM = rb"(?:0|[1-9][0-9]*)"
+_OID = rb"(?:[A-Za-z][A-Za-z0-9-]*|" + _NUM + rb"(?:\." + _NUM + rb")+)"
+_ATTR = _OID + rb"(?:;[A-Za-z0-9-]+)*"
+_UTFMB = (rb"(?:[\xc2-\xdf][\x80-\xbf]|\xe0[\xa0-\xbf][\x80-\xbf]|[\xe1-\xec\xee\xef][\x80-\xbf]{2}|\xed[\x80-\x9f][\x80-\xbf]"
+          rb"|\xf0[\x90-\xbf][\x80-\xbf]{2}|[\xf1-\xf3][\x80-\xbf]{3}|\xf4[\x80-\x8f][\x80-\xbf]{2})")
+_VAL = rb"(?:[\x01-\x27\x2b-\x5b\x5d-\x7f]|\\[0-9a-fA-F]{2}|" + _UTFMB + rb")*"
+_ITEM = re.compile(
+    rb"(?:" + _ATTR + rb"(?:=|~=|>=|<=)" + _VAL                                  # simple
+    + rb"|" + _ATTR + rb"=\*"                                                    # present
+    + rb"|" + _ATTR + rb"=" + _VAL + rb"\*(?:" + _VAL + rb"\*)*" + _VAL           # substring
+    + rb"|" + _ATTR + rb"(?::dn)?(?::" + _OID + rb")?:=" + _VAL                    # extensible with attribute
+    + rb"|(?::dn)?:" + _OID + rb":=" + _VAL + rb")\Z", re.S)
+
+
+def rfc4515_sentence(text: str) -> bool:
+    """is `text` derivable from RFC 4515 `filter` (attribute descriptions and oids per RFC 4512, values as valueencoding)?"""
+    try:
+        b = text.encode("utf-8")
+    except UnicodeEncodeError:
+        return False
+    pos = 0
+    stack = 0          # iterative, so that deep nesting needs no interpreter stack
+    need = []          # per open and/or/not: [kind, number of sub-filters seen]
+    n = len(b)
+    while True:
+        if pos >= n or b[pos] != 0x28:
+            return False
+        pos += 1
+        if pos < n and b[pos] in b"&|!":
+            need.append([b[pos], 0])
+            pos += 1
+            continue
+        end = b.find(b")", pos)
+        if end < 0 or not _ITEM.match(b[pos:end]):
+            return False
+        pos = end + 1
+        # close as many composite filters as end here
+        while True:
+            if not need:
+                return pos == n
+            need[-1][1] += 1
+            if pos < n and b[pos] == 0x29:
+                need.pop()
+                pos += 1
+                continue
+            if need[-1][0] == 0x21:      # not: exactly one sub-filter, then it must close
+                return False
+            break
 
 
 def check_accept_properties(text, f):
     """C15: whenever the parser accepts, the result is representable: valid attributes / rules, and its own text parses back"""
     out = []
 
-    def walk(x):
-        if isinstance(x, (sansldap.FilterAnd, sansldap.FilterOr)):
-            for y in x.filters:
-                walk(y)
-        elif isinstance(x, sansldap.FilterNot):
-            walk(x.filter)
-        elif isinstance(x, sansldap.FilterExtensibleMatch):
-            for nm, val in (("attribute", x.attribute), ("matching rule", x.rule)):
-                if val is not None:
-                    classify(nm, val)
-        else:
-            classify("attribute", x.attribute)
+    def walk(x0):
+        todo = [x0]            # iterative: a parser that accepts very deep nesting must not make the harness itself overflow the stack
+        while todo:
+            x = todo.pop()
+            if isinstance(x, (sansldap.FilterAnd, sansldap.FilterOr)):
+                todo.extend(x.filters)
+            elif isinstance(x, sansldap.FilterNot):
+                todo.append(x.filter)
+            elif isinstance(x, sansldap.FilterExtensibleMatch):
+                for nm, val in (("attribute", x.attribute), ("matching rule", x.rule)):
+                    if val is not None:
+                        classify(nm, val)
+            elif hasattr(x, "attribute"):
+                classify("attribute", x.attribute)
 
     def classify(nm, val):
-        if RFC_ATTR.match(val):
+        if nm == "matching rule":
+            if RFC_OID.match(val):
+                return
+            if RFC_ATTR.match(val):
+                out.append({"key": "C15:matching-rule-with-options", "what": f"accepted matching rule {val!r} carries options (RFC 4515: matchingrule = oid)",
+                            "text": text})
+                return
+        elif RFC_ATTR.match(val):
             return
         if SINGLE_ARC.match(val):
             out.append({"key": "C15:single-arc-numericoid-attribute", "what": f"accepted {nm} {val!r} is a single-arc numeric OID", "text": text})
@@ -241,11 +304,17 @@ def check_accept_properties(text, f):
 
     walk(f)
     try:
-        again = sansldap.LDAPFilter.from_string(str(f))
+        own = str(f)
+    except RecursionError:
+        return out             # a tree deeper than the interpreter stack cannot be printed by recursive code: not judged
+    try:
+        again = sansldap.LDAPFilter.from_string(own)
         if again != f:
-            out.append({"key": None, "what": "accepted filter's own text form parses to a different filter", "text": text, "str": str(f)})
+            out.append({"key": None, "what": "accepted filter's own text form parses to a different filter", "text": text, "str": own})
+    except RecursionError:
+        return out
     except BaseException as e:  # noqa: BLE001
-        out.append({"key": None, "what": f"accepted filter's own text form is rejected: {type(e).__name__}", "text": text, "str": str(f)})
+        out.append({"key": None, "what": f"accepted filter's own text form is rejected: {type(e).__name__}", "text": text, "str": own})
     return out
 
 
